@@ -31,8 +31,8 @@ Record nstmt := {
   ns_id : Z;                        (* statement name = node index *)
   ns_label : str;                   (* text of the <B> element *)
   ns_data : str;                    (* text after it (metadata lines) *)
-  ns_in : list Z;                   (* PORT="in.k" cells, in order *)
-  ns_out : list Z;                  (* PORT="out.k" cells, in order *)
+  ns_in : list Z;                   (* PORT="in.k" cells: in order in the model; observed ones as a sorted multiset *)
+  ns_out : list Z;                  (* PORT="out.k" cells, likewise *)
   ns_back : color;                  (* BGCOLOR of the table *)
   ns_border : color                 (* COLOR of the table *)
 }.
@@ -117,3 +117,25 @@ Definition estmt_eqb (a b : estmt) : bool :=
   Z.eqb (e_dport a) (e_dport b) && str_eqb (e_label a) (e_label b) && N.eqb (e_color a) (e_color b).
 Definition dot_eqb (a b : dot) : bool :=
   N.eqb (d_bg a) (d_bg b) && dnode_eqb (d_top a) (d_top b) && list_eqb estmt_eqb (d_edges a) (d_edges b).
+
+(* ---- equality up to the orders the drawing does not depend on and the property does not promise:
+        sibling statements inside a cluster (the nesting is kept), edge statements ---- *)
+Fixpoint take1 {A} (f : A -> bool) (l : list A) : option (list A) :=     (* drop the first element satisfying f *)
+  match l with
+  | [] => None
+  | x :: r => if f x then Some r else match take1 f r with Some r' => Some (x :: r') | None => None end
+  end.
+Fixpoint dnode_peqb (a b : dnode) : bool :=
+  match a, b with
+  | DLeaf s, DLeaf s' => nstmt_eqb s s'
+  | DCluster i body s c, DCluster i' body' s' c' =>
+      Z.eqb i i' && nstmt_eqb s s' && N.eqb c c' &&
+      (fix go (x y : list dnode) : bool :=
+         match x with
+         | [] => match y with [] => true | _ => false end
+         | p :: r => match take1 (dnode_peqb p) y with Some y' => go r y' | None => false end
+         end) body body'
+  | _, _ => false
+  end.
+Definition dot_peqb (a b : dot) : bool :=
+  N.eqb (d_bg a) (d_bg b) && dnode_peqb (d_top a) (d_top b) && perm_eqb estmt_eqb (d_edges a) (d_edges b).
